@@ -12,7 +12,7 @@ PARALLEL = 16
 RULE = ("exhaustive: every dataset of n <= 10 (quick: n <= 7) sorted entries x all 2^(n-1) ways of cutting it into consecutive "
         "non-empty chunks: group-by on every key pattern (which neighbours share a key) for the encoded-ragged key column "
         "(first=last shortcut; n <= 10 / 7) and for string and integer key columns (n <= 8 / 6); mean / bincount / histogram "
-        "(explicit edges and bins+range) / k-mer counts (k=2,3) / chunk_entries / chunk_lines (n_entries 1..n+1) on fixed "
+        "(explicit edges and bins+range) / k-mer counts (k=1,2,3) / chunk_entries / chunk_lines (n_entries 1..n+1) on fixed "
         "datasets; computation graphs (shared streams, unused nodes, stream roots) on all chunkings of n <= 6 / 5; then seeded "
         "random larger datasets (n <= 40) with sampled cut sets, random graphs, multi-root / reduction graphs and stream=True "
         "genome pipelines (pileup histogram / sum / mask / values under intervals / merged; 1-4 chromosomes, some empty). "
@@ -40,7 +40,9 @@ MANIFEST = {
             "spec vs pure-Python oracle vs the implementation's own in-memory result; stream=True genome pipelines with bnp.compute.",
     "note": "mean_chunks_partial: exact integer arithmetic, float rounding is runtime (data exactly representable). histogram is "
             "claimed for explicit edges / range; NumPy's data-dependent default bins are run every check and reported as the known "
-            "finding histogram:default-bins. Graph value/lock-step are corresponded (model run), not proved.",
+            "finding histogram:default-bins. Graph theorems cover element-wise binary node functions with scalar constants; "
+            "reductions over graphs (np.sum / np.mean / np.histogram nodes, compute of several roots) and the stream=True genome "
+            "pipelines (per-chromosome pileup / mask / values under intervals) are corresponded, not proved.",
     "technique": "Lean 4 proofs by induction over the chunk list + executable model run against the implementation on all chunkings of small datasets",
     "design": "§6 C11",
 }
@@ -74,6 +76,21 @@ def _mods():
         id: int
 
     @bnpdataclass
+    class Er:
+        name: str
+        id: int
+
+    @bnpdataclass
+    class Es:
+        chrom: SequenceID
+        id: int
+
+    @bnpdataclass
+    class Ei:
+        key: int
+        id: int
+
+    @bnpdataclass
     class V:
         val: int
 
@@ -81,7 +98,7 @@ def _mods():
     class F:
         val: float
 
-    m = dict(bnp=bnp, E=E, V=V, F=F, NpDataclassStream=NpDataclassStream, BnpStream=BnpStream, chunk_entries=chunk_entries,
+    m = dict(bnp=bnp, E=E, Er=Er, Es=Es, Ei=Ei, V=V, F=F, NpDataclassStream=NpDataclassStream, BnpStream=BnpStream, chunk_entries=chunk_entries,
              chunk_lines=chunk_lines, count_kmers=count_kmers, cg=cg, Interval=Interval)
     _CACHE["m"] = m
     return m
@@ -156,9 +173,8 @@ def cases(tier, rng):
                 yield {"op": "chunk_entries", "chunks": _cut(ids, mask), "n": ne}
                 yield {"op": "chunk_lines", "chunks": _cut(ids, mask), "n": ne}
             seqs = [[("ACGT".index(ch_)) for ch_ in s] for s in SEQS[:n]]
-            for k in (2, 3):
+            for k in (1, 2, 3):
                 yield {"op": "count_kmers", "chunks": _cut(seqs, mask), "k": k}
-            yield {"op": "count_kmers1", "chunks": _cut(seqs, mask), "k": 1}
             for kt, lim in (("ragged", N), ("str", NS), ("int", NS)):
                 if n > lim:
                     continue
@@ -208,7 +224,7 @@ def cases(tier, rng):
             yield {"op": "groupby", "kt": kt, "fast": kt == "ragged", "chunks": _cut([[k, i] for i, k in enumerate(ks)], mask)}
         elif w == "kmers":
             seqs = [[rng.randrange(4) for _ in range(rng.choice([0, 1, 2, 3, 4, 6, 9]))] for _ in range(n)]
-            yield {"op": "count_kmers", "chunks": _cut(seqs, mask), "k": rng.choice([2, 3])}
+            yield {"op": "count_kmers", "chunks": _cut(seqs, mask), "k": rng.choice([1, 2, 3])}
         else:
             n = rng.randrange(2, 12)
             mask = rng.getrandbits(n - 1)
@@ -306,10 +322,16 @@ def _kmer_obs(r, k):
     return sorted(out)
 
 
-def _etable(m, rows):
-    E = m["E"]
+def _etable(m, rows, kt=None):
     ks = [r[0] for r in rows]
-    return E([LABELS[k] for k in ks], [LABELS[k] for k in ks], ks, [r[1] for r in rows])
+    ids = [r[1] for r in rows]
+    if kt == "ragged":
+        return m["Er"]([LABELS[k] for k in ks], ids)
+    if kt == "str":
+        return m["Es"]([LABELS[k] for k in ks], ids)
+    if kt == "int":
+        return m["Ei"](ks, ids)
+    return m["E"]([LABELS[k] for k in ks], [LABELS[k] for k in ks], ks, ids)
 
 
 _COL = {"ragged": "name", "str": "chrom", "int": "key"}
@@ -429,11 +451,13 @@ def impl(c):
             mem = m["count_kmers"](mk([s for ch in c["chunks"] for s in ch]), c["k"])
             return {"v": _kmer_obs(r, c["k"]), "mem": _kmer_obs(mem, c["k"])}
         if op == "groupby":
-            E = m["E"]
             col = _COL[c["kt"]]
-            st = m["NpDataclassStream"]((_etable(m, ch) for ch in c["chunks"]), dataclass=E)
+            # the wide 4-column table on small data, one key column + ids otherwise (same code path, cheaper to build)
+            kt = c["kt"] if sum(len(ch) for ch in c["chunks"]) >= 8 else None
+            E = m["E"] if kt is None else m[{"ragged": "Er", "str": "Es", "int": "Ei"}[kt]]
+            st = m["NpDataclassStream"]((_etable(m, ch, kt) for ch in c["chunks"]), dataclass=E)
             r = _groups_obs(bnp.groupby(st, col), c["kt"])
-            mem = _groups_obs(bnp.groupby(_etable(m, [x for ch in c["chunks"] for x in ch]), col), c["kt"])
+            mem = _groups_obs(bnp.groupby(_etable(m, [x for ch in c["chunks"] for x in ch], kt), col), c["kt"])
             return {"v": r, "mem": mem}
         if op in ("chunk_entries", "chunk_lines"):
             V = m["V"]
